@@ -2,6 +2,7 @@ package gram
 
 import (
 	"io"
+	"reflect"
 
 	"github.com/alecthomas/participle/v2"
 	"github.com/alecthomas/participle/v2/lexer"
@@ -94,6 +95,18 @@ type PosMixin struct {
 	EndPos lexer.Position
 	Tokens []lexer.Token
 }
+
+// CapList is a field type that receives its captures through the Capture
+// interface (pointer receiver); field kind "cstrs". It accumulates like []string.
+type CapList struct{ V []string }
+
+// Capture implements participle.Capture.
+func (c *CapList) Capture(values []string) error {
+	c.V = append(c.V, values...)
+	return nil
+}
+
+var capListType = reflect.TypeOf(CapList{})
 
 // MyPos is a named type convertible from lexer.Position (position style 3).
 type MyPos lexer.Position
